@@ -25,7 +25,7 @@ func init() {
 			"inside a macro the includer's variables are the macro's parameters",
 			"error texts are not compared, only error-vs-output",
 		},
-		quick: 1728 + 60 + 72 + 16000, thorough: 1728 + 60 + 72 + 400000, minQuick: 2500, minThorough: 15000,
+		quick: 1728 + 60 + 20 + 72 + 16000, thorough: 1728 + 60 + 20 + 72 + 400000, minQuick: 2500, minThorough: 15000,
 	}})
 }
 
@@ -214,6 +214,46 @@ func (p *c11) Run(rec *core.Recorder, seed uint64, idx int, tier string) {
 		return
 	}
 	idx -= 60
+	if idx < 20 {
+		// the same through names written relative to the includer ('./', '../'): the resolved template exists and fails
+		kind, rel := idx%5, idx/5
+		broken := []string{"{% if %}broken", "before {{ 1 / 0 }} after", "x{{ 'v'|no_such_filter }}y", "x{% include './really_missing' %}y", "x{{ boom() }}y"}[kind]
+		var srcs map[string]string
+		var main string
+		switch rel {
+		case 0:
+			main, srcs = "d/main", map[string]string{"d/main": "A[{% include './inc' ignore missing %}]B", "d/inc": broken}
+		case 1:
+			main, srcs = "d/e/main", map[string]string{"d/e/main": "A[{% include '../inc' ignore missing %}]B", "d/inc": broken}
+		case 2:
+			main, srcs = "d/main", map[string]string{"d/main": "A[{% include './sub/inc' ignore missing with {'z': 1} %}]B", "d/sub/inc": broken}
+		default:
+			// control: a relative name that resolves to nothing is a missing template
+			main, srcs = "d/main", map[string]string{"d/main": "A[{% include './nothing_here' ignore missing %}]B", "d/inc": broken}
+		}
+		canon := canonSrcs(srcs)
+		rec.Eval("ignore-missing-relative", canon, true)
+		res := renderFresh(srcs, main, nil, func(e *twig.Engine) {
+			e.AddFunction("boom", func(args ...interface{}) (interface{}, error) { return nil, errSentinel })
+		})
+		if res.Panicked {
+			rec.Violate("panic", "panic@"+res.Site, "engine panicked: "+res.PanicVal, map[string]any{"templates": srcs}, res.Stack)
+			return
+		}
+		if rel == 3 {
+			if res.Err != nil || res.Out != "A[]B" {
+				rec.Violate("ignore-missing", "c11-ignore-relative-missing", fmt.Sprintf("'ignore missing' on a relative name that resolves to nothing gave %s err=%v, want \"A[]B\"", core.Q(res.Out), res.Err), map[string]any{"templates": srcs}, "")
+			}
+			return
+		}
+		if res.Err == nil {
+			rec.Violate("ignore-missing", core.SigHash("c11-ignore-swallow-relative", canon),
+				fmt.Sprintf("'ignore missing' swallowed a failure other than a missing template behind a relative name (included source %s); output %s", core.Q(broken), core.Q(core.Trunc(res.Out, 200))),
+				map[string]any{"templates": srcs, "render": main}, "")
+		}
+		return
+	}
+	idx -= 20
 	if idx < 4*3*2*3 {
 		// `only` hides everything the includer has: also the macros it defined or imported (names, not only variables)
 		origin, probe, form, place := idx%4, idx/4%3, idx/12%2, idx/24%3
